@@ -1,5 +1,5 @@
 (* C11 — Agent callbacks: each party told of its fills, after holdings have been updated for the whole round. *)
-Require Import Pams.Prelude Pams.Match Pams.Market Pams.Sim Pams.SimLift Pams.SimInv Pams.SimProps.
+Require Import Pams.Prelude Pams.Match Pams.Market Pams.Sim Pams.SimLift Pams.SimInv Pams.SimProps Pams.SimCallbacks.
 Open Scope Z_scope.
 
 (* what the notification of one fill emits: the buyer's callback, then the seller's (twice to the same agent for a
@@ -24,6 +24,39 @@ Theorem C11_notified_after_holdings_updated_for_whole_round : forall s mkid x m'
 Proof. exact round_updates_holdings_before_notifying. Qed.
 Print Assumptions C11_notified_after_holdings_updated_for_whole_round.
 
-(* NOTE (partial): the run-level statement "the callback stream equals, request by request, submitted/canceled for the owner
-   followed by buyer+seller per fill" is decided by the correspondence of the callback events and by the monitor; its
-   closed-form theorem over whole runs is not proved yet. *)
+(* ---- the whole run ---- *)
+(* [cbs] = the callbacks made, in order, as (agent, kind, record) with kind 1 submitted_order, 2 canceled_order,
+   3 executed_order; [truths] = the records born in the markets, in order; [expected] = what they call for:
+   the owner for an accepted order, the owner of the cancelled order for an accepted cancel, buyer then seller for a fill
+   (twice the same agent for a self-trade), nobody for an expiry.  EXACTLY ONCE EACH, IN ORDER, NOTHING ELSE - for every
+   configuration, every tape of runner decisions, every behaviour of normal and high-frequency agents, every fundamental path,
+   whenever the run ends without an exception. *)
+Theorem C11_callbacks_are_exactly_what_the_records_call_for : forall c tape batches funds,
+  let s := run c tape batches funds in
+  ok s = true -> cbs (events_of s) = expected (truths (events_of s)).
+Proof. exact callbacks_are_exactly_what_the_records_call_for. Qed.
+Print Assumptions C11_callbacks_are_exactly_what_the_records_call_for.
+
+(* also while a run is under way or after it failed: at every request boundary nothing is owed (told [] s) *)
+Theorem C11_nothing_owed_after_any_request : forall s r, told [] s -> told [] (handle_request s r).
+Proof. exact told_request. Qed.
+Print Assumptions C11_nothing_owed_after_any_request.
+
+(* no agent is notified about an event it is not a party to, and every notification is about a record that exists *)
+Theorem C11_only_parties_are_notified : forall c tape batches funds,
+  let s := run c tape batches funds in
+  ok s = true -> forall a k r, In (a, k, r) (cbs (events_of s)) -> party a r /\ In r (truths (events_of s)).
+Proof. exact only_parties_are_notified. Qed.
+Print Assumptions C11_only_parties_are_notified.
+
+Example C11_run_nonvacuous :
+  let c := mkCfg [mkMC 0 (1#1) (100#1) None 1] [mkAC 0 false (1000#1) [(0, 10)]; mkAC 1 false (1000#1) [(0, 10)]]
+                 [mkSC 0 2 true true 2 1 (0#1)] [] in
+  let tape := [TPerm [0; 1]; TPerm [0; 1]; TDraw (1#2); TDraw (1#2);
+               TPerm [0; 1]; TPerm [0]; TDraw (1#2)]%nat in
+  let batches := [(0, [RNew 1 0 0 false (Some (100#1)) 5 None]); (1, [RNew 2 1 0 true (Some (100#1)) 2 None]);
+                  (0, [Sim.RCancel 1 0 0]); (1, [])] in
+  let funds := [(0, 0, 100#1); (0, 1, 100#1); (0, 2, 100#1)] in
+  let s := run c tape batches funds in
+  ok s = true /\ map (fun x => (fst (fst x), snd (fst x))) (cbs (events_of s)) = [(0, 1); (1, 1); (1, 3); (0, 3); (0, 2)].
+Proof. exact callbacks_example. Qed.
